@@ -61,6 +61,8 @@ def classify(src_tree, placement):
     if 'ifexp-as-operand' in feats or 'nested-ifexp' in feats: return 'ifexp-as-operand'
     if 'boolop-used-as-value' in feats: return 'boolop-used-as-value'
     if 'not-used-as-value' in feats: return 'not-used-as-value'
+    if any(isinstance(n, ast.IfExp) and (isinstance(n.body, ast.Constant) or isinstance(n.orelse, ast.Constant)) for n in ast.walk(src_tree)):
+        return 'ifexp-constant-arm'
     return 'plain'
 
 
@@ -177,7 +179,8 @@ def run(tier, seed, only=None):
     else:
         boolfam = exprgen.bool_family(2) + exprgen.bool_family(3) + exprgen.bool_family(4)
     seen = set(); allx = []
-    for e in exprs + core + extra + deep:
+    wide = exprgen.wide()
+    for e in exprs + wide + core + extra + deep:
         if e in seen: continue
         seen.add(e)
         try: ast.parse(e, mode='eval')
